@@ -52,6 +52,8 @@ type pkgResult struct {
 	Notes    []string           `json:"notes"`
 	Groups   []string           `json:"groups"` // group id -> description
 	Single   []bool             `json:"single"` // group id -> at most one thread
+	Pos      []string           `json:"positions"` // node index -> file:line ("" when none)
+	Instrs   []string           `json:"instrs"`    // node index -> instruction text
 	nodes    []node
 	entryIDs []int
 }
@@ -1019,6 +1021,10 @@ func analysePackage(repo, dir, typeName string) (*pkgResult, error) {
 	res.Notes = nil
 	build()
 	res.Nodes = len(res.nodes)
+	for _, n := range res.nodes {
+		res.Pos = append(res.Pos, n.pos)
+		res.Instrs = append(res.Instrs, n.instr)
+	}
 	for i, n := range res.nodes {
 		if n.acc != nil {
 			res.Accesses[fmt.Sprint(i)] = *n.acc
